@@ -40,8 +40,8 @@ def add(U):
     ens('Lexer::block_comment', ('match bc_end(%s, %s, 1) { Some(j) => final(self).ci() == j, None => true }' % (CH, CI), 'C14', 'block comments nest; token ends after the matching */'))
     F[('lexer.rs', 'Lexer::block_comment')].loops = {0: dict(
         invariant=['self.adv(old(self))', 'self.lwf()',
-                   C('depth > 0 ==> bc_end(self.chars(), old(self).ci(), 1) == bc_end(self.chars(), self.ci(), depth as nat)', 'C14'),
-                   C('depth == 0 ==> bc_end(self.chars(), old(self).ci(), 1) == Some(self.ci())', 'C14'),
+                   C('depth > 0 ==> bc_end(self.chars(), old(self).ci(), 1) == bc_end(self.chars(), self.ci(), depth as nat)', 'C14', name='block comment: the depth counter mirrors the nesting of /* and */'),
+                   C('depth == 0 ==> bc_end(self.chars(), old(self).ci(), 1) == Some(self.ci())', 'C14', name='block comment ends at the */ that closes the outermost /*'),
                    '2 * (depth as int - 1) <= self.ci() - old(self).ci()'],
         decreases='self.chars().len() - self.ci()',
         body_prologue='proof { lemma_enc_len(self.chars()); lemma_mono_ind(self.chars(), 0, self.chars().len()); reveal_strlit("*/"); reveal_strlit("/*"); let r = rest(&self.s); assert(r.len() >= 2 ==> r.subrange(0, 2) =~= seq![r[0], r[1]]); assert("*/"@ =~= seq![\'*\', \'/\']); assert("/*"@ =~= seq![\'/\', \'*\']); }')}
@@ -83,8 +83,8 @@ def add(U):
     ens('Lexer::string',
         ('match str_end(%s, %s, false) { Some(j) => ret == TokenKind::StrVal && final(self).ci() == j, None => true }' % (CH, CI), 'C14', 'string literal with escapes'))
     lp = F[('lexer.rs', 'Lexer::string')].loops[0]
-    lp['invariant_except_break'] = [C('str_end(self.chars(), old(self).ci(), false) is Some ==> str_end(self.chars(), old(self).ci(), false) == str_end(self.chars(), self.ci(), escaped)', 'C14')]
-    lp['ensures'] = [C('str_end(self.chars(), old(self).ci(), false) is Some ==> str_end(self.chars(), old(self).ci(), false) == Some(self.ci())', 'C14')]
+    lp['invariant_except_break'] = [C('str_end(self.chars(), old(self).ci(), false) is Some ==> str_end(self.chars(), old(self).ci(), false) == str_end(self.chars(), self.ci(), escaped)', 'C14', name='string literal: the closing quote is the first unescaped one (escape state tracked correctly)')]
+    lp['ensures'] = [C('str_end(self.chars(), old(self).ci(), false) is Some ==> str_end(self.chars(), old(self).ci(), false) == Some(self.ci())', 'C14', name='string literal ends at its closing quote')]
     # ---- preprocessor directives / paste
     ens('Lexer::preprocessor',
         ('match directive_kind(%s.subrange(%s as int, scan(%s, %s, p_uni_alpha()) as int)) { Some(k) => ret == k && final(self).ci() == scan(%s, %s, p_uni_alpha()), None => ret == TokenKind::Paste && final(self).ci() == %s }' % (CH, CI, CH, CI, CH, CI, CI),
@@ -97,7 +97,7 @@ def add(U):
     fc.requires += [C('%s >= 1 && boff(%s, (%s - 1) as nat) == start && c == %s[%s - 1]' % (CI, CH, CI, CH, CI), 'C14', name='number() is entered after its first char'),
                     C("is_digit(c) || c == '+' || c == '-'", 'C14')]
     ens('Lexer::number',
-        ('match ref_number(%s, (%s - 1) as nat) { Some(t) => ret == t.0 && final(self).ci() == t.1, None => true }' % (CH, CI), 'C14 C20', 'numbers, signs and digit-leading identifiers'))
+        ('match ref_number(%s, (%s - 1) as nat) { Some(t) => ret == t.0 && final(self).ci() == t.1, None => true }' % (CH, CI), 'C14', 'numbers, signs and digit-leading identifiers'))
     fc.closures = {0: dict(params='c: char', ret='r: bool', ensures=['r == is_bin(c)'], bind='__cl0',
                            after_call='proof { assert forall|x: char| #[trigger] pat_yes::<char, _>(__cl0, x) implies is_bin(x) by { ax_yes_fn(__cl0, x); } '
                                       'assert forall|x: char| #[trigger] pat_no::<char, _>(__cl0, x) implies !is_bin(x) by { ax_no_fn(__cl0, x); } '
